@@ -793,6 +793,14 @@ pub fn config_any(p: CfgParams) -> BoxedStrategy<BuilderConfig> {
                     .into_iter()
                     .filter(|s| !std::mem::replace(&mut seen[s.kind as usize], true))
                     .collect();
+                // version ranges: neighbouring dependencies of the same kind on the same name
+                let mut deps = deps;
+                for i in 1..deps.len() {
+                    if (deps[i].ctor + deps[i - 1].ctor) % 3 == 0 {
+                        deps[i].kind = deps[i - 1].kind;
+                        deps[i].name = deps[i - 1].name.clone();
+                    }
+                }
                 BuilderConfig {
                     name,
                     version,
